@@ -278,8 +278,12 @@ class Base(object):
                 idm[0:2] = o.get('idm01', b'\x02\xFE')
                 kw = dict(pmm=bytes(pmm), idm=bytes(idm),
                           sys=o.get('realsys', 0x12FC))
+            tail = o.get('poll_tail')
+            if isinstance(tail, str):
+                tail = bytes.fromhex(tail)
             return hostile.HostileT3(bytearray(img['mem']), case.nbr,
-                                     case.nbw, sensf=o.get('sensf'), **kw)
+                                     case.nbw, sensf=o.get('sensf'),
+                                     poll_tail=tail, **kw)
         kw = {k: o[k] for k in ('ats_bytes', 'sensb', 'attrib_res',
                                 'le_policy', 'case1') if k in o}
         # the limits the tag enforces stay those of the product, whatever
@@ -896,6 +900,22 @@ def act_cases(tier):
                                           sensf=(with_sys, sysc)),
                                 cls='sensf:%s' % ('sys' if with_sys
                                                   else 'nosys')))
+    # -- Type 3: Polling responses of other sizes than the request code asks
+    #    for (the NDEF read polls for system 12FCh when discovery saw another
+    #    or no system code)
+    for bn in ('nbr=1|nbw=1|nmaxb=1', 'nbr=4|nbw=1|nmaxb=13'):
+        b = first_base('T3', bn)
+        for with_sys, sysc in ((False, 0x12FC), (True, 0x0003),
+                               (True, 0xFFFF), (True, 0x12FC)):
+            for realsys in (0x12FC, 0x0003):
+                for tail in ('00', '12fc', '0083', '000000', '00000000',
+                             -1, -2, -8, -16, -17):
+                    out.append(dict(
+                        base=b.name,
+                        opts=dict(realsys=realsys, sensf=(with_sys, sysc),
+                                  poll_tail=tail),
+                        cls='polling-response:%s' % (
+                            'longer' if isinstance(tail, str) else 'shorter')))
     # -- Type 4A: ATS variants
     subsets = ('', 'A', 'B', 'C', 'AB', 'AC', 'BC', 'ABC')
     for bn in ('v20|mle=15', 'v30|mle=59'):
